@@ -205,7 +205,8 @@ def gen_history(rng, nsteps, b_over):
                         c = classes[c][0]
                     q = rng.random()
                     if chain and q < 0.6:
-                        steps.append(('cset', rng.choice(chain), m, tag('probe.' + m + '=fn')))
+                        pc = rng.choice(chain)
+                        steps.append(('cset', pc, m, tag(pc + '.' + m + '=fn')))
                     elif chain and q < 0.75:
                         steps.append(('cdel', rng.choice(chain), m))
                     elif q < 0.9:
@@ -290,6 +291,16 @@ def classify(cfgname, fam_meta, steps, info, exp, got):
         elif s[0] in ('iset', 'idel') and s[1] == o and s[2] == m:
             last = {'iset': 'instance-attr-set', 'idel': 'instance-attr-del'}[s[0]]
     e, g = el[idx][1].strip("'"), gl[idx][1].strip("'")
+    # where does the implementation CPython selected live?
+    owner = e.split('>')[0].split('.')[0]
+    if owner in chain:
+        where = 'own-class' if chain.index(owner) == 0 else 'python-base-class'
+    elif owner in objs:
+        where = 'instance-dict'
+    elif owner in ('A', 'B'):
+        where = 'cdef-class'
+    else:
+        where = 'none(%s)' % (e if e.startswith('<') else '?')
 
     def k(t):
         if t.startswith('<'):
@@ -301,7 +312,7 @@ def classify(cfgname, fam_meta, steps, info, exp, got):
         if '=fn' in t:
             return 'assigned-class-attr'
         return 'python-override'
-    return 'route=%s:%s:last=%s:%s->%s' % (route, recv, last, k(e), k(g))
+    return 'route=%s:%s:expected-impl-in=%s:%s->%s' % (route, recv, where, k(e), k(g))
 
 
 def main(ck):
